@@ -780,6 +780,7 @@ def run_reuse(case: dict[str, Any]) -> Outcome:
                     b.cb_exc = _EXC[b.spec["exc"]]()
                     raise b.cb_exc
 
+            propagated: BaseException | None = None
             try:
                 with pool.connect(C32Service, cmd, on_log=on_log) as svc:
                     pooled = svc._transport  # type: ignore[attr-defined]
@@ -788,13 +789,17 @@ def run_reuse(case: dict[str, Any]) -> Outcome:
                     prev = last_holder.get(wid)
                     b.reused_from = prev.idx if prev is not None else None
                     last_holder[wid] = b
-                    _run_steps(svc, b)
+                    try:
+                        _run_steps(svc, b)
+                    except Exception as e:  # policy "propagate": already classified by the step interpreter
+                        propagated = e
+                        b.abnormal = True
+                        raise
             except _BodyError:
                 pass
             except Exception as e:
-                if b.cb_raised == 0 and not b.unexpected:
-                    b.unexpected.append(f"escaped connect(): {type(e).__name__}: {str(e)[:120]}")
-                b.abnormal = True
+                if e is not propagated:  # raised by connect() itself (enter or exit), not by the script
+                    raise
             if hung["flag"]:
                 raise S.SchedulerError("reuse history hung on a pipe (safety timer fired)")
             if spec.get("kill_after") and worker_kind == "thread":
